@@ -122,4 +122,10 @@ def c05_tables(w):
     w("-- running interpreter: str.isalpha() for non-ASCII characters, as ranges")
     w(f"def alphaRangesNA : List (Nat × Nat) := {_pairs(_ranges(lambda cp: chr(cp).isalpha(), 128, sys.maxunicode + 1))}")
     w(f"def intMaxStrDigits : Nat := {sys.get_int_max_str_digits()}")
+    # hypothesis `EnvOk` of the QName theorems, checked on the running interpreter:
+    # no character is_ncname lets through is white space for str.strip()
+    punct = set(N.NCNAME_PUNCTUATION) | {"_"}
+    bad = [cp for cp in range(sys.maxunicode + 1) if chr(cp).isspace() and (chr(cp).isalpha() or chr(cp).isdigit() or chr(cp) in punct)]
+    assert not bad, f"EnvOk violated by code points {bad[:5]}"
+    w(f"def envOkChecked : Bool := {lean_bool(not bad)}")
     w("")
